@@ -307,7 +307,7 @@ class Canon(object):
                 self._canon_function(n, cls, m, outer_first=mine)
 
     # ---------------------------------------------------------------- new optional parameters nobody passes
-    def _passed_somewhere(self, fname, pname, index):
+    def _passed_somewhere(self, fname, pname, index, self_fn=None):
         """Does any call in the package to a function of this name pass the parameter (by keyword, by position, or through * / **)?"""
         key = (fname, pname, index)
         cache = self.__dict__.setdefault('_passed_cache', {})
@@ -323,10 +323,25 @@ class Canon(object):
                         if nm is not None:
                             calls.setdefault(nm, []).append(n)
             self._calls_by_name = calls
+        # other definitions of the same name (another class's method) explain calls with as many positional arguments as they take
+        other_arity = []
+        for c in self.prog.all_classes():
+            f = c.methods.get(fname)
+            if f is not None and f.node is not self_fn:
+                n = len(f.node.args.posonlyargs + f.node.args.args)
+                if n and f.node.args.args and f.node.args.args[0].arg in ('self', 'cls', 'mcs') and \
+                        not any(_dotted(d) == 'staticmethod' for d in f.node.decorator_list):
+                    n -= 1
+                other_arity.append(n)
         res = False
         for c in calls.get(fname, []):
-            if any(k.arg == pname or k.arg is None for k in c.keywords) or any(isinstance(a, ast.Starred) for a in c.args) or \
-                    (index is not None and len(c.args) > index):
+            if any(k.arg == pname for k in c.keywords):
+                res = True
+                break
+            if any(k.arg is None for k in c.keywords) or any(isinstance(a, ast.Starred) for a in c.args):
+                res = True
+                break
+            if index is not None and len(c.args) > index and not any(len(c.args) <= n for n in other_arity):
                 res = True
                 break
         cache[key] = res
@@ -350,22 +365,52 @@ class Canon(object):
         assigned = {n.id for n in walk_scope(fn) if isinstance(n, ast.Name) and isinstance(n.ctx, (ast.Store, ast.Del))}
         is_method = bool(pos) and pos[0].arg in ('self', 'cls', 'mcs')
         loads = {}
+        pre = []
         for name, d, idx in cands:
-            if name in known or name in assigned:
+            if name in known:
                 continue
             if not (isinstance(d, ast.Constant) or (isinstance(d, ast.UnaryOp) and isinstance(d.operand, ast.Constant))):
                 continue
             call_idx = None if idx is None else (idx - 1 if is_method else idx)
-            if self._passed_somewhere(fn.name, name, call_idx):
+            if self._passed_somewhere(fn.name, name, call_idx, fn):
                 continue
-            loads[name] = d
-        if not loads:
+            if name in assigned:
+                # `p=None` ... `if p is None: p = <today's value>`: the parameter becomes a local that starts at its default
+                pre.append(ast.Assign(targets=[ast.Name(id=name, ctx=ast.Store())], value=copy.deepcopy(d), lineno=fn.lineno))
+            else:
+                loads[name] = d
+            self._drop_param(fn, name)
+        if not loads and not pre:
             return
-        sub = Subst(loads=loads)
-        fn.body = [sub.visit(st) for st in fn.body]
+        if loads:
+            sub = Subst(loads=loads)
+            fn.body = [sub.visit(st) for st in fn.body]
+        doc = fn.body[:1] if fn.body and isinstance(fn.body[0], ast.Expr) and isinstance(fn.body[0].value, ast.Constant) and \
+            isinstance(fn.body[0].value.value, str) else []
+        fn.body = doc + pre + fn.body[len(doc):]
         _fold_constant_tests(fn)
         _fill_empty(fn)
-        self.stats['consts'] += len(loads)
+        self.stats['consts'] += len(loads) + len(pre)
+
+    @staticmethod
+    def _drop_param(fn, name):
+        a = fn.args
+        pos = a.posonlyargs + a.args
+        ndef = len(a.defaults)
+        first_def = len(pos) - ndef
+        for i, x in enumerate(pos):
+            if x.arg == name and i >= first_def:
+                del a.defaults[i - first_def]
+                if x in a.args:
+                    a.args.remove(x)
+                else:
+                    a.posonlyargs.remove(x)
+                return
+        for i, x in enumerate(a.kwonlyargs):
+            if x.arg == name:
+                del a.kwonlyargs[i]
+                del a.kw_defaults[i]
+                return
 
     def _first(self, fn, cls):
         """Name that denotes the receiver (instance / class) inside fn, or None."""
